@@ -309,8 +309,10 @@ def build(spec):
     if k == 'circle':
         _, d, c = spec
         sh = _c(c)
+        # center=None is a different code path on polar grids (radius shortcut): the model's `disk`
+        toks = ['disk', rat(d / 2)] if c is None else ['circle', rat(d / 2), rat(sh[0]), rat(sh[1])]
         return (hcipy.make_circular_aperture(d, center=None if c is None else np.array(c, float)),
-                ['circle', rat(d / 2), rat(sh[0]), rat(sh[1])], abs(d) + np.abs(sh).max(), True)
+                toks, abs(d) + np.abs(sh).max(), True)
     if k == 'ellipse':
         _, ds, c, ang = spec
         sh = _c(c)
@@ -362,7 +364,7 @@ def build(spec):
         return hcipy.make_spider_infinite(p, deg, w), toks, max(np.abs(p).max(), w), True
     if k == 'obstructed':
         _, D, ratio, nsp, w = spec
-        toks = ['sub', 'circle', rat(D / 2), '0', '0', 'circle', rat(D * ratio / 2), '0', '0']
+        toks = ['sub', 'disk', rat(D / 2), 'disk', rat(D * ratio / 2)]
         sp = ['const', '1']
         for a in np.linspace(0, 2 * np.pi, nsp, endpoint=False):
             _, t, _, _ = build(['spider', [0, 0], [float(D * np.cos(a)), float(D * np.sin(a))], w])
@@ -675,7 +677,136 @@ def shrink(gspec, sspec, over, hist=None):
     return sspec, real_failures(gspec, sspec, over, None, hist)[-1]
 
 
-def run_generic(ctx, gspec, sspec, over=None, want_model=True, corner=None, hist=None):
+def polar_request(op, tol, g, rest):
+    """request line for the polar code path: the radii and the direction cosines cos(theta), sin(theta) as the exact
+    rationals the floats are (the floats `_polar_to_cartesian` multiplies with)"""
+    r = np.array(g.r, float).ravel()
+    th = np.array(g.theta, float).ravel()
+    cs = np.empty(2 * len(r))
+    cs[0::2] = np.cos(th)
+    cs[1::2] = np.sin(th)
+    return 'C12 %s polar %s %s %s %s' % (op, tol, rat_list(r), rat_list(cs), rest)
+
+
+def path_probe(ctx, sspec, reps, tol):
+    """The path structure of the regular polygon on the real code: `func(grid, return_with_mask=True)` on every
+    representation (bounding slices + sub-array on separated grids, boolean mask + masked values otherwise) — for a
+    top-level polygon on the grid itself, for a segmented aperture on `grid.shifted(-p)` as make_segmented_aperture
+    calls it.  -> [(request line, real result, rep name, mode)]"""
+    import hcipy
+    k = sspec[0]
+    if k == 'regpoly':
+        inner, shifts = sspec, [None]
+    elif k == 'segmented' and sspec[1][0] == 'regpoly':
+        inner, shifts = sspec[1], [list(p) for p in sspec[2][:2]]
+    elif k == 'hexseg':
+        _, rings, f2f, gap, start = sspec
+        pts = hcipy.make_hexagonal_grid(f2f + gap, rings, pointy_top=False).points
+        if start != 0:
+            pts = pts[3 * (start - 1) * start + 1:]
+        inner, shifts = ['regpoly', 6, float(f2f * 2 / np.sqrt(3)), float(np.pi / 2), None], [[float(a), float(b)] for a, b in pts[:2]]
+    else:
+        return []
+    gen, toks, _, _ = build(inner)
+    out = []
+    for name, g in reps.items():
+        for p in shifts:
+            try:
+                gg = g if p is None else g.shifted(-np.array(p, float))
+                with warnings.catch_warnings():
+                    warnings.simplefilter('ignore')
+                    fsub, m = gen(gg, return_with_mask=True)
+                cart = gg.as_('cartesian')
+            except Exception as e:                              # noqa
+                ctx.disagree('C12 regsub', {'shape': sspec, 'rep': name, 'shift': p, 'detail': 'return_with_mask raises %s' % type(e).__name__},
+                             key='%s:return-with-mask-raises:%s' % (root_kind(sspec), rep_class(name)))
+                continue
+            if cart.is_separated:
+                ax, ay = [np.array(c, float) for c in cart.separated_coords]
+                mode = 'sep'
+            else:
+                ax, ay = np.array(cart.x, float), np.array(cart.y, float)
+                mode = 'pts'
+            out.append(('C12 regsub %s %s %s %s %s' % (mode, tol, rat_list(ax), rat_list(ay), ' '.join(toks[1:])), (fsub, m), name, mode))
+    return out
+
+
+def _bits(t):
+    return [c == '1' for c in t[1:-1].split(',')] if t != '[]' else []
+
+
+def _rats(t):
+    return [float(_frac(c)) for c in t[1:-1].split(',')] if t != '[]' else []
+
+
+def check_path(ctx, case, label, resp, real, name, mode):
+    """compare one `regsub` answer of the model with what the real code returned"""
+    fsub, m = real
+    parts = resp.split(' ')
+    ctx.traces_validated += 1
+    key = '%s:path:%s' % (label, rep_class(name))
+
+    def bad(detail):
+        ctx.disagree('C12 regsub ' + mode, dict(detail, case=case, rep=name), key=key)
+    if parts[0] != 'ok':
+        return bad({'model': resp})
+    if mode == 'sep':
+        edge = parts[-1] == '1'
+        m_y, m_x = m
+        real_none = np.size(fsub) == 0
+        real_desc = None if real_none else [int(m_y.start), int(m_x.start), int(m_y.stop - m_y.start), int(m_x.stop - m_x.start)]
+        if real_none and (m_y.stop - m_y.start != 0 or m_x.stop - m_x.start != 0):
+            return bad({'detail': 'empty sub-array with non-empty slices', 'impl': str(m)})
+        model_desc = None if parts[1] == 'none' else [int(t) for t in parts[2:6]]
+        if model_desc != real_desc:
+            if edge:
+                ctx.boundary_skipped += 1
+                ctx.count('regsub-edge-skipped')
+                return
+            return bad({'detail': 'bounding slices (y0, x0, nr, nc)', 'model': model_desc, 'impl': real_desc})
+        ctx.count('regsub:sep:' + ('none' if real_none else 'some'))
+        if real_none:
+            return
+        if list(np.shape(fsub)) != model_desc[2:]:
+            return bad({'detail': 'shape of the sub-array', 'model': model_desc[2:], 'impl': list(np.shape(fsub))})
+        mv, near = _rats(parts[6]), _bits(parts[7])
+        rv = np.array(fsub, float).ravel()
+        for i in range(len(rv)):
+            if near[i]:
+                ctx.boundary_skipped += 1
+                ctx.count('model-boundary-skipped')
+                continue
+            ctx.count('regsub-values-compared')
+            if abs(mv[i] - rv[i]) > 1e-9:
+                return bad({'detail': 'sub-array value', 'index': i, 'model': mv[i], 'impl': float(rv[i]), 'slices': real_desc})
+    else:
+        mm, mv, near, nearbox = _bits(parts[1]), _rats(parts[2]), _bits(parts[3]), _bits(parts[4])
+        rm = np.array(m, bool).ravel()
+        if len(mm) != len(rm):
+            return bad({'detail': 'mask length', 'model': len(mm), 'impl': len(rm)})
+        diff = [i for i in range(len(rm)) if mm[i] != bool(rm[i])]
+        if diff:
+            if all(nearbox[i] for i in diff):
+                ctx.boundary_skipped += 1
+                ctx.count('regsub-edge-skipped')
+                return
+            i = [j for j in diff if not nearbox[j]][0]
+            return bad({'detail': 'slow-path mask', 'index': i, 'model': mm[i], 'impl': bool(rm[i])})
+        ctx.count('regsub:pts')
+        rv = np.array(fsub, float).ravel()
+        if len(rv) != len(mv):
+            return bad({'detail': 'number of masked values', 'model': len(mv), 'impl': len(rv)})
+        for i in range(len(rv)):
+            if near[i]:
+                ctx.boundary_skipped += 1
+                ctx.count('model-boundary-skipped')
+                continue
+            ctx.count('regsub-values-compared')
+            if abs(mv[i] - rv[i]) > 1e-9:
+                return bad({'detail': 'masked value', 'index': i, 'model': mv[i], 'impl': float(rv[i])})
+
+
+def run_generic(ctx, gspec, sspec, over=None, want_model=True, corner=None, hist=None, probe_paths=True):
     """Returns the model requests and a closure that checks the responses."""
     reps, xs, ys, sep, toks, scale, res, sup, fails = real_failures(gspec, sspec, over, ctx, hist)
     label = top_kind(sspec)
@@ -707,24 +838,37 @@ def run_generic(ctx, gspec, sspec, over=None, want_model=True, corner=None, hist
     if sep is not None:
         lines.append(('sep', 'C12 eval sep %s %s %s %s' % (tol, rat_list(sep[0]), rat_list(sep[1]), ' '.join(toks))))
     lines.append(('pts', 'C12 eval pts %s %s %s %s' % (tol, rat_list(xs), rat_list(ys), ' '.join(toks))))
+    pol = reps.get('polar')
+    if pol is not None:
+        # the polar code path itself (radius shortcut, PolarGrid.rotate, conversion) — evalPolar of the model
+        lines.append(('polar', polar_request('eval', tol, pol, ' '.join(toks))))
+        ctx.count('polar-path-cases')
     if sup:
         ov = (np.round(over) * np.ones(2)).astype(int)
         lines.append(('super', 'C12 super %d %d %s %s %s %s' % (ov[0], ov[1], tol, rat_list(sep[0]), rat_list(sep[1]), ' '.join(toks))))
+    probes = path_probe(ctx, sspec, reps, tol) if probe_paths else []
+    for req, real, name, mode in probes:
+        lines.append(('regsub', req))
 
     def check(out):
-        for (mode, req), resp in zip(lines, out):
+        for (req, real, name, mode), resp in zip(probes, out[len(lines) - len(probes):]):
+            check_path(ctx, case, label, resp, real, name, mode)
+        for (mode, req), resp in zip(lines[:len(lines) - len(probes)], out):
             parts = resp.split(' ')
             if parts[0] != 'ok':
                 ctx.disagree('C12 ' + mode, {'case': case, 'model': resp})
                 continue
             mv = [float(_frac(t)) for t in parts[1][1:-1].split(',')] if parts[1] != '[]' else []
             near = [t == '1' for t in parts[2][1:-1].split(',')] if parts[2] != '[]' else []
+            check_polar_slack(ctx, case, mode, parts)
             if mode != 'super' and parts[3] != '1':
                 ctx.disagree('C12 model-self', {'case': case, 'detail': 'code-path model differs from point semantics', 'mode': mode})
             if mode == 'super':
                 targets = [(n, sup.get(n)) for n in ('regular', 'separated')]
             elif mode == 'sep':
                 targets = [(n, res.get(n)) for n in ('regular', 'separated', 'separated-indep')]
+            elif mode == 'polar':
+                targets = [(n, res.get(n)) for n in ('polar', 'polar-separated')]
             else:
                 targets = [(n, res.get(n)) for n in ('unstructured', 'unstructured-indep', 'polar', 'polar-separated')]
             for name, rv in targets:
@@ -745,6 +889,18 @@ def run_generic(ctx, gspec, sspec, over=None, want_model=True, corner=None, hist
                                                      'model': mv[i], 'impl': float(rv[i])}, key='%s:model:%s' % (label, name))
                         break
     return [l for _, l in lines], check
+
+
+def check_polar_slack(ctx, case, mode, parts):
+    """polar requests: the driver counts the points where a radius shortcut of the model disagrees with the Cartesian test
+    (`diskAgree` false) although the point is not within tol of a decision boundary.  For radii >= 0 theorem polar_float_rim
+    says that needs |r^2 - R^2| <= eps r^2 with eps the rounding error of cos^2 + sin^2 — far inside the tol band: must be 0."""
+    if mode != 'polar':
+        return
+    ctx.count('polar-float-slack-checked')
+    if len(parts) < 5 or parts[4] != '0':
+        ctx.disagree('C12 polar-float-slack', {'case': case, 'detail': 'diskAgree fails away from every decision boundary', 'count': parts[4] if len(parts) > 4 else None},
+                     key='polar-float-slack')
 
 
 def _frac(t):
@@ -1045,6 +1201,8 @@ def run_keck(ctx, kw, gseed, fam):
     if sep is not None:
         lines.append(('sep', 'C12 keck sep %s %s %s %s' % (tol, rat_list(sep[0]), rat_list(sep[1]), ' '.join(params))))
     lines.append(('pts', 'C12 keck pts %s %s %s %s' % (tol, rat_list(xs), rat_list(ys), ' '.join(params))))
+    if reps.get('polar') is not None:
+        lines.append(('polar', polar_request('keck', tol, reps['polar'], ' '.join(params))))
 
     def check(out):
         for (mode, req), resp in zip(lines, out):
@@ -1054,9 +1212,11 @@ def run_keck(ctx, kw, gseed, fam):
                 continue
             mv = [float(_frac(t)) for t in parts[1][1:-1].split(',')] if parts[1] != '[]' else []
             near = [t == '1' for t in parts[2][1:-1].split(',')] if parts[2] != '[]' else []
+            check_polar_slack(ctx, case, mode, parts)
             if parts[3] != '1':
                 ctx.disagree('C12 model-self', {'case': case, 'detail': 'code-path model differs from point semantics', 'mode': mode})
-            names = ('regular', 'separated', 'separated-indep') if mode == 'sep' else ('unstructured', 'unstructured-indep', 'polar', 'polar-separated')
+            names = (('regular', 'separated', 'separated-indep') if mode == 'sep' else ('polar', 'polar-separated') if mode == 'polar'
+                     else ('unstructured', 'unstructured-indep', 'polar', 'polar-separated'))
             for name in names:
                 rv = res.get(name)
                 if rv is None:
@@ -1077,6 +1237,647 @@ def run_keck(ctx, kw, gseed, fam):
                                                           'model': mv[i], 'impl': float(rv[i])}, key='keck:model:%s' % name)
                         break
     return [l for _, l in lines], check
+
+
+# ---------------------------------------------------------------------------------------------
+# a non-hexagonal telescope pupil inside the model: the VLT and its four quadrants
+
+def vlt_params(kw):
+    """the constants of make_vlt_aperture, computed with its own NumPy expressions -> (model tokens after the segment
+    index, pupil diameter)"""
+    telescope = kw.get('telescope', 'ut3')
+    if telescope in ('ut1', 'ut2', 'ut3'):
+        pupil_diameter = 8.0
+        central_obscuration_ratio = 1.116 / pupil_diameter
+    else:
+        pupil_diameter = 8.1196
+        central_obscuration_ratio = 0.6465 * 2 / pupil_diameter
+    spider_width = 0.040
+    spider_offset = 0.4045
+    spider_outer_radius = 4.2197
+    outer_diameter_M3_stow = 1.070
+    angle_between_spiders = 101
+    if kw.get('normalized'):
+        spider_width /= pupil_diameter
+        spider_offset /= pupil_diameter
+        spider_outer_radius /= pupil_diameter
+        outer_diameter_M3_stow /= pupil_diameter
+        pupil_diameter = 1.0
+    spider_inner_radius = spider_offset / np.cos(np.radians(45 - (angle_between_spiders - 90) / 2))
+    d45 = np.array([np.cos(np.pi / 4), np.sin(np.pi / 4)])
+    se = [(-spider_inner_radius * d45, spider_outer_radius * np.array([np.cos(np.pi), np.sin(np.pi)])),
+          (-spider_inner_radius * d45, spider_outer_radius * np.array([np.cos(-np.pi / 2), np.sin(-np.pi / 2)])),
+          (spider_inner_radius * d45, spider_outer_radius * np.array([np.cos(0), np.sin(0)])),
+          (spider_inner_radius * d45, spider_outer_radius * np.array([np.cos(np.pi / 2), np.sin(np.pi / 2)]))]
+    sp = []
+    if kw.get('with_spiders', True):
+        for a, b in se:
+            _, t, _, _ = build(['spider', [float(a[0]), float(a[1])], [float(b[0]), float(b[1])], spider_width])
+            sp += t[1:]
+    flat = []
+    for a, b in se:
+        flat += [a[0], a[1], b[0], b[1]]
+    m3 = []
+    if kw.get('with_M3_cover'):
+        _, t, _, _ = build(['rect', outer_diameter_M3_stow, [outer_diameter_M3_stow / 2, 0]])
+        m3 = t[1:]
+    central = pupil_diameter * central_obscuration_ratio             # make_obstructed_circular_aperture
+    return [rat(pupil_diameter / 2), rat(central / 2), '[' + ','.join(sp) + ']', rat_list(flat), '[' + ','.join(m3) + ']'], pupil_diameter
+
+
+VLT_CONFIGS = [{}, {'normalized': True}, {'with_spiders': False}, {'telescope': 'ut4', 'with_M3_cover': True},
+               {'telescope': 'ut4', 'normalized': True, 'with_M3_cover': True, 'with_spiders': False}, {'telescope': 'ut1', 'with_M3_cover': True}]
+
+
+def run_vlt(ctx, kw, gseed, fam, nseg=2):
+    """make_vlt_aperture and its quadrants against the model's vltShape / vltSegment on every representation"""
+    import hcipy
+    rng = np.random.default_rng(gseed)
+    with warnings.catch_warnings():
+        warnings.simplefilter('ignore')
+        gen, segs = hcipy.make_vlt_aperture(return_segments=True, **kw)
+    params, D = vlt_params(kw)
+    gspec = gen_grid_family(rng, fam, nmax=11, half=0.55 * D * float(rng.uniform(0.15, 1.1)), exact=False)
+    reps, xs, ys, sep = make_reps(gspec)
+    scale = scale_of(xs, ys, D)
+    case = {'kind': 'vlt', 'kw': kw, 'gseed': int(gseed), 'fam': fam, 'grid': gspec, 'nseg': nseg}
+    which = ['-'] + [str(int(i)) for i in sorted(rng.choice(4, nseg, replace=False))]
+    tol = rat(REL_TOL * scale)
+    lines = []
+    results = {}
+    for w in which:
+        g = gen if w == '-' else segs[int(w)]
+        lab = 'vlt' if w == '-' else 'vlt:segment'
+        res, fails = oracle(ctx, lab, g, reps, xs, ys, scale, {0.0, 1.0}, True)
+        results[w] = res
+        for key, what in fails:
+            ctx.violation(key, what + ' [%r, segment %s]' % (kw, w), case)
+        nz = [v for v in res.values() if v is not None]
+        mixed = bool(nz) and 0 < np.count_nonzero(nz[0]) < len(xs)
+        ctx.case(None, ('vlt-model', w, tuple(sorted(kw.items())), fam, len(xs), int(np.count_nonzero(nz[0]))) if mixed else None)
+        rest = '%s %s' % (w, ' '.join(params))
+        if sep is not None:
+            lines.append(('sep', w, 'C12 vlt sep %s %s %s %s' % (tol, rat_list(sep[0]), rat_list(sep[1]), rest)))
+        lines.append(('pts', w, 'C12 vlt pts %s %s %s %s' % (tol, rat_list(xs), rat_list(ys), rest)))
+        if reps.get('polar') is not None:
+            lines.append(('polar', w, polar_request('vlt', tol, reps['polar'], rest)))
+    ctx.count('vlt-model-cases')
+    for feat in grid_features(gspec, sep):
+        ctx.count('cover:vlt(model)|' + feat)
+
+    def check(out):
+        for (mode, w, req), resp in zip(lines, out):
+            parts = resp.split(' ')
+            if parts[0] != 'ok':
+                ctx.disagree('C12 vlt ' + mode, {'case': case, 'segment': w, 'model': resp})
+                continue
+            mv, near = _rats(parts[1]), _bits(parts[2])
+            check_polar_slack(ctx, case, mode, parts)
+            if parts[3] != '1':
+                ctx.disagree('C12 model-self', {'case': case, 'detail': 'code-path model differs from point semantics', 'mode': mode})
+            names = (('regular', 'separated', 'separated-indep') if mode == 'sep' else ('polar', 'polar-separated') if mode == 'polar'
+                     else ('unstructured', 'unstructured-indep', 'polar', 'polar-separated'))
+            for name in names:
+                rv = results[w].get(name)
+                if rv is None:
+                    continue
+                ctx.traces_validated += 1
+                if len(mv) != len(rv):
+                    ctx.disagree('C12 vlt ' + mode, {'case': case, 'detail': 'length'})
+                    continue
+                for i in range(len(rv)):
+                    if near[i]:
+                        ctx.boundary_skipped += 1
+                        ctx.count('model-boundary-skipped')
+                        continue
+                    ctx.count('points-compared')
+                    ctx.count('vlt-points-compared')
+                    if abs(mv[i] - rv[i]) > 1e-9:
+                        ctx.disagree('C12 vlt ' + mode, {'case': case, 'segment': w, 'rep': name, 'index': i, 'point': [float(xs[i]), float(ys[i])],
+                                                         'model': mv[i], 'impl': float(rv[i])},
+                                     key='vlt%s:model:%s' % ('' if w == '-' else ':segment', name))
+                        break
+    return [l for _, _, l in lines], check
+
+
+# ---------------------------------------------------------------------------------------------
+# the simple telescope pupils as compositions of the modelled makers: Magellan, Hale, HabEx, HST
+# (the recipe of realistic.py is transcribed here as a model shape tree from the generic makers' own tokens, so
+# that these pupils are instances of the generic theorems fast_path_eq_inside / polar_path_eq_inside — and the
+# transcription is checked against the running code on every representation)
+
+RECIPE_PUPILS = [
+    ('make_magellan_aperture', {}), ('make_magellan_aperture', {'normalized': True}), ('make_magellan_aperture', {'with_spiders': False}),
+    ('make_hale_aperture', {}), ('make_hale_aperture', {'normalized': True}), ('make_hale_aperture', {'normalized': True, 'with_spiders': False}),
+    ('make_habex_aperture', {}), ('make_habex_aperture', {'normalized': True}),
+    ('make_hst_aperture', {}), ('make_hst_aperture', {'normalized': True}), ('make_hst_aperture', {'with_pads': False}),
+    ('make_hst_aperture', {'normalized': True, 'with_spiders': False}),
+]
+
+
+def recipe_pupil(name, kw):
+    """-> (model tokens, pupil diameter, feature points worth zooming in on); constants and arithmetic as in realistic.py"""
+    def toks(spec):
+        return build(spec)[1]
+
+    def mul(parts):
+        out = parts[0]
+        for p in parts[1:]:
+            out = ['mul'] + out + p
+        return out
+    normalized = kw.get('normalized', False)
+    with_spiders = kw.get('with_spiders', True)
+    if name == 'make_magellan_aperture':
+        pupil_diameter = 6.5
+        spider_width1 = 0.75 * 0.0254
+        spider_width2 = 1.5 * 0.0254
+        central_obscuration_ratio = 0.29
+        spider_offset = np.array([0.34, 0.0])
+        if normalized:
+            spider_width1 /= pupil_diameter
+            spider_width2 /= pupil_diameter
+            spider_offset /= pupil_diameter
+            pupil_diameter = 1.0
+        parts = [toks(['obstructed', pupil_diameter, central_obscuration_ratio, 0, 0.01])]
+        feats = [([0.0, 0.0], pupil_diameter * central_obscuration_ratio / 2)]
+        if with_spiders:
+            for off, deg, w in ((-spider_offset, 45.0, spider_width1), (-spider_offset, -45.0, spider_width1),
+                                (spider_offset, 45.0 + 180.0, spider_width2), (spider_offset, -45.0 + 180.0, spider_width2)):
+                parts.append(toks(['spiderinf', [float(off[0]), float(off[1])], deg, w]))
+                a = np.radians(deg)
+                # make_spider_infinite starts at -p
+                feats += [([float(-off[0]), float(-off[1])], 2 * w), ([float(-off[0] + 0.3 * pupil_diameter * np.cos(a)), float(-off[1] + 0.3 * pupil_diameter * np.sin(a))], 2 * w)]
+        return mul(parts), pupil_diameter, feats
+    if name == 'make_hale_aperture':
+        pupil_diameter = 5.08
+        central_obscuration_diameter = 1.86
+        spider_width = 2 * 0.024
+        central_obscuration_ratio = central_obscuration_diameter / pupil_diameter
+        box_heigth = 2 * 0.06
+        box_width = 2 * 0.0932 + central_obscuration_diameter
+        if normalized:
+            spider_width /= pupil_diameter
+            box_heigth /= pupil_diameter
+            box_width /= pupil_diameter
+            pupil_diameter = 1.0
+        ob = ['obstructed', pupil_diameter, central_obscuration_ratio, 4, spider_width] if with_spiders else ['obstructed', pupil_diameter, central_obscuration_ratio, 0, 0.01]
+        parts = [toks(ob), toks(['obstruction', ['rect', [box_width, box_heigth], None]]), toks(['obstruction', ['rect', [box_heigth, box_width], None]])]
+        feats = [([box_width / 2, 0.0], box_heigth), ([0.0, box_width / 2], box_heigth), ([-box_width / 2, box_heigth / 2], box_heigth),
+                 ([0.3 * pupil_diameter, 0.0], spider_width), ([0.0, -0.3 * pupil_diameter], spider_width)]
+        return mul(parts), pupil_diameter, feats
+    if name == 'make_habex_aperture':
+        pupil_diameter = 4.0
+        if normalized:
+            pupil_diameter = 1
+        return toks(['circle', pupil_diameter, None]), float(pupil_diameter), [([pupil_diameter / 2, 0.0], pupil_diameter / 8)]
+    if name == 'make_hst_aperture':
+        pupil_diameter = 2.4
+        secondary_obscuration_ratio = 0.330
+        spider_width = 0.022 / 2
+        pad_v3 = np.array([0.8921, -0.4615, -0.4564]) / 2
+        pad_v2 = np.array([0.0000, 0.7555, -0.7606]) / 2
+        pad_radii = np.array([0.065, 0.065, 0.065]) / 2
+        if normalized:
+            pupil_diameter = 1
+        else:
+            spider_width *= pupil_diameter
+            pad_v3 *= pupil_diameter
+            pad_v2 *= pupil_diameter
+            pad_radii *= pupil_diameter
+        parts = [toks(['obstructed', pupil_diameter, secondary_obscuration_ratio, 4 if with_spiders else 0, spider_width])]
+        feats = [([0.3 * pupil_diameter, 0.0], spider_width), ([0.0, 0.3 * pupil_diameter], spider_width),
+                 ([pupil_diameter * secondary_obscuration_ratio / 2, 0.0], pupil_diameter / 16)]
+        if kw.get('with_pads', True):
+            for v3, v2, r in zip(pad_v3, pad_v2, pad_radii):
+                parts.append(toks(['obstruction', ['circle', float(2 * r), [float(-v2), float(v3)]]]))
+                feats += [([float(-v2), float(v3)], float(r)), ([float(-v2 + r), float(v3)], float(r) / 8)]
+        return mul(parts), float(pupil_diameter), feats
+    raise MachineryError('recipe_pupil: %r' % (name,))
+
+
+def run_recipe(ctx, name, kw, gseed, fam, feat=None):
+    """a simple telescope pupil against its recipe evaluated by the model (eval sep | pts | polar), on every representation;
+    half of the grids zoom in on a feature (spider, pad, box corner) so that thin structures are resolved"""
+    import hcipy
+    rng = np.random.default_rng(gseed)
+    with warnings.catch_warnings():
+        warnings.simplefilter('ignore')
+        gen = getattr(hcipy, name)(**kw)
+    toks, D, feats = recipe_pupil(name, kw)
+    short = name[len('make_'):-len('_aperture')]
+    if feat is not None:
+        # directed: a small grid around one feature, pixel size of the order of the feature's width (fine: an eighth of it)
+        c, w = feats[feat[0] % len(feats)]
+        half = 3 * w / (8 if feat[1] else 1)
+        ctx.count('recipe-grid:feature')
+    elif rng.random() < 0.5 and not fam.startswith('polar'):
+        c, w = feats[int(rng.integers(0, len(feats)))]
+        half = w * 10 ** float(rng.uniform(-0.5, 1.0))
+        ctx.count('recipe-grid:zoomed')
+    else:
+        c = [0.0, 0.0]
+        half = 0.55 * D * float(rng.uniform(0.15, 1.1))
+        ctx.count('recipe-grid:whole')
+    gspec = gen_grid_family(rng, fam, nmax=11, half=half, centre=(c[0], c[1]), exact=False)
+    reps, xs, ys, sep = make_reps(gspec)
+    scale = scale_of(xs, ys, D)
+    case = {'kind': 'recipe', 'name': name, 'kw': kw, 'gseed': int(gseed), 'fam': fam, 'feat': feat, 'grid': gspec}
+    tol = rat(REL_TOL * scale)
+    res, fails = oracle(ctx, 'pupil:' + short, gen, reps, xs, ys, scale, {0.0, 1.0}, True)
+    for key, what in fails:
+        ctx.violation(key, what + ' [%r]' % (kw,), case)
+    nz = [v for v in res.values() if v is not None]
+    mixed = bool(nz) and 0 < np.count_nonzero(nz[0]) < len(xs)
+    ctx.case(None, ('recipe', short, tuple(sorted(kw.items())), fam, len(xs), int(np.count_nonzero(nz[0]))) if mixed else None)
+    ctx.count('recipe-cases:' + short)
+    ctx.count('recipe-field:' + ('mixed' if mixed else 'constant'))
+    lines = []
+    if sep is not None:
+        lines.append(('sep', 'C12 eval sep %s %s %s %s' % (tol, rat_list(sep[0]), rat_list(sep[1]), ' '.join(toks))))
+    lines.append(('pts', 'C12 eval pts %s %s %s %s' % (tol, rat_list(xs), rat_list(ys), ' '.join(toks))))
+    if reps.get('polar') is not None:
+        lines.append(('polar', polar_request('eval', tol, reps['polar'], ' '.join(toks))))
+
+    def check(out):
+        for (mode, req), resp in zip(lines, out):
+            parts = resp.split(' ')
+            if parts[0] != 'ok':
+                ctx.disagree('C12 recipe ' + mode, {'case': case, 'model': resp[:80]})
+                continue
+            mv, near = _rats(parts[1]), _bits(parts[2])
+            check_polar_slack(ctx, case, mode, parts)
+            if parts[3] != '1':
+                ctx.disagree('C12 model-self', {'case': case, 'detail': 'code-path model differs from point semantics', 'mode': mode})
+            names = (('regular', 'separated', 'separated-indep') if mode == 'sep' else ('polar', 'polar-separated') if mode == 'polar'
+                     else ('unstructured', 'unstructured-indep', 'polar', 'polar-separated'))
+            for nm in names:
+                rv = res.get(nm)
+                if rv is None:
+                    continue
+                ctx.traces_validated += 1
+                if len(mv) != len(rv):
+                    ctx.disagree('C12 recipe ' + mode, {'case': case, 'detail': 'length', 'model': len(mv), 'impl': len(rv)})
+                    continue
+                for i in range(len(rv)):
+                    if near[i]:
+                        ctx.boundary_skipped += 1
+                        ctx.count('model-boundary-skipped')
+                        continue
+                    ctx.count('points-compared')
+                    ctx.count('recipe-points-compared')
+                    if abs(mv[i] - rv[i]) > 1e-9:
+                        ctx.disagree('C12 recipe ' + mode, {'case': case, 'rep': nm, 'index': i, 'point': [float(xs[i]), float(ys[i])],
+                                                            'model': mv[i], 'impl': float(rv[i])}, key='recipe:%s:model:%s' % (short, rep_class(nm)))
+                        break
+    return [l for _, l in lines], check
+
+
+# ---------------------------------------------------------------------------------------------
+# evaluate_supersampled: where it is defined, and which exception otherwise (model: supersampled_defined_iff)
+
+SUPER_ERROR_CASES = [
+    (['regular', [4, 3], [0.5, 0.5], [-0.75, -0.5]], 0), (['regular', [4, 3], [0.5, 0.5], [-0.75, -0.5]], [0, 2]),
+    (['regular', [4, 3], [0.5, 0.5], [-0.75, -0.5]], [2, 0]), (['regular', [4, 3], [0.5, 0.5], [-0.75, -0.5]], 0.4),
+    (['regular', [4, 3], [0.5, 0.5], [-0.75, -0.5]], 0.6), (['regular', [4, 3], [0.5, 0.5], [-0.75, -0.5]], [1, 3]),
+    (['sep', [0.5], [0.0, 1.0]], 2), (['sep', [0.5], [0.0, 1.0]], 0), (['sep', [0.5, 1.0], [0.25]], [2, 0]),
+    (['sep', [0.5], [0.25]], 1), (['sep', [1.0, 0.5], [0.25, 0.0, -1.0]], [0, 0]),
+]
+
+
+def run_super_errors(ctx):
+    """evaluate_supersampled on separated grids incl. one-point axes and oversampling factors that round to 0: the model
+    must be defined exactly where the code is, and name the same exception"""
+    import hcipy
+    cases = list(SUPER_ERROR_CASES)
+    for _ in range(ctx.scale(12, 60)):
+        fam = str(ctx.rng.choice(['regular', 'sep-asc', 'sep-desc', 'size1-x', 'size1-y']))
+        over = [int(ctx.rng.integers(0, 3)), int(ctx.rng.integers(0, 3))] if ctx.rng.random() < 0.7 else float(ctx.rng.choice([0, 0.3, 0.5, 0.7, 1, 2]))
+        cases.append((gen_grid_family(ctx.rng, fam, nmax=5), over))
+    spec = ['circle', 1.5, [0.25, 0.0]]
+    gen, toks, size, _ = build(spec)
+    lines, real = [], []
+    for gspec, over in cases:
+        reps, xs, ys, sep = make_reps(gspec)
+        g = reps.get('regular', reps.get('separated'))
+        try:
+            with warnings.catch_warnings():
+                warnings.simplefilter('ignore')
+                f = hcipy.evaluate_supersampled(gen, g, over)
+            r = ('ok', np.array(f, float).ravel())
+        except Exception as e:                                  # noqa
+            r = ('err', type(e).__name__)
+        ov = (np.round(over) * np.ones(2)).astype(int)
+        if ov.min() < 0:
+            continue
+        real.append((gspec, over, r))
+        lines.append('C12 super %d %d %s %s %s %s' % (ov[0], ov[1], rat(REL_TOL * scale_of(xs, ys, size)), rat_list(sep[0]), rat_list(sep[1]), ' '.join(toks)))
+    out = ctx.model(lines)
+    names = {'IndexError': 'err index', 'ZeroDivisionError': 'err zerodiv'}
+    for (gspec, over, r), resp in zip(real, out):
+        ctx.traces_validated += 1
+        case = {'kind': 'super-error', 'grid': gspec, 'over': over}
+        if r[0] == 'err':
+            ctx.count('super-defined:' + r[1])
+            if names.get(r[1]) != resp:
+                ctx.disagree('C12 super-defined', {'case': case, 'impl': r[1], 'model': resp[:60]}, key='super:error-kind')
+        else:
+            ctx.count('super-defined:ok')
+            parts = resp.split(' ')
+            if parts[0] != 'ok':
+                ctx.disagree('C12 super-defined', {'case': case, 'impl': 'ok', 'model': resp}, key='super:error-kind')
+                continue
+            mv, near = _rats(parts[1]), _bits(parts[2])
+            for i in range(len(mv)):
+                if not near[i] and abs(mv[i] - r[1][i]) > 1e-9:
+                    ctx.disagree('C12 super', {'case': case, 'index': i, 'model': mv[i], 'impl': float(r[1][i])}, key='super:value')
+                    break
+
+
+# ---------------------------------------------------------------------------------------------
+# evaluate_supersampled: the statistics 'mean' | 'sum' | 'min' | 'max' on separated grids (model: supersampledStat)
+
+SUPER_STATS = ('mean', 'sum', 'min', 'max')
+SUPER_STAT_FAMILIES = ('regular', 'regular-xdesc', 'regular-reversed', 'regular-scaled-x', 'sep-asc', 'sep-desc', 'sep-mixed',
+                       'sep-permuted', 'sep-repeated', 'alias-sep', 'alias-regular', 'size1-x')
+SUPER_STAT_CORPUS = [
+    (['regular', [5, 4], [0.5, 0.75], [-1.0, -1.125]], ['circle', 1.5, [0.25, 0.0]], [2, 3]),
+    (['sep', [1.75, 1.0, 0.5, 0.0, -0.5, -1.25], [-1.5, -0.375, 0.0, 0.375, 1.25]], ['regpoly', 6, 1.75, 0.25, None], 2),
+    (['sep', [-1.0, 0.0, 0.0, 1.5], [0.5, -0.5, 0.25]], ['segmented', ['regpoly', 6, 0.875, 0.0, None], [[0.0, 0.0], [0.75, 0.0]], [0.25, 0.5]], [3, 1]),
+    (['regular', [4, 4], [0.5, 0.5], [-0.75, -0.75]], ['obstructed', 2.0, 0.25, 3, 0.125], [1, 1]),
+    (['regular', [4, 3], [0.5, 0.5], [-0.75, -0.5]], ['rect', [1.0, 0.5], None], [0, 2]),
+    (['sep', [0.5], [0.0, 1.0]], ['circle', 1.5, None], 2),
+]
+
+
+def super_stat_case(ctx, gspec, sspec, over, want_model=True):
+    """evaluate_supersampled(gen, grid, over, statistic=...) for all four statistics on the regular / separated
+    representation.  Oracle on the real code alone: attached to the grid, regular == separated, min <= mean <= max,
+    sum == mean * number of dithers, 'min'/'max' take only values the plain evaluation can take (0/1 or a transmission),
+    mean/min/max of a binary aperture in [0,1], the statistic does not change whether the call fails (which exception it
+    raises is compared with the model only).
+    -> (request lines, check(out))"""
+    import hcipy
+    reps, xs, ys, sep = make_reps(gspec)
+    gen, toks, size, binary = build(sspec)
+    label = root_kind(sspec)
+    case = {'kind': 'super-stat', 'grid': gspec, 'shape': sspec, 'over': over}
+    ov = (np.round(over) * np.ones(2)).astype(int)
+    allowed = None if transmissions(sspec) is None else sorted(set(transmissions(sspec)) | {0.0, 1.0})
+    real = {}
+    for name in ('regular', 'separated'):
+        g = reps.get(name)
+        if g is None or sep is None:
+            continue
+        for st in SUPER_STATS:
+            try:
+                with warnings.catch_warnings():
+                    warnings.simplefilter('ignore')
+                    f = hcipy.evaluate_supersampled(gen, g, over, statistic=st)
+                real[name, st] = ('ok', np.array(f, float).ravel())
+                if f.grid is not g:
+                    ctx.violation('%s:super-not-attached:%s' % (label, st), "evaluate_supersampled(..., statistic=%r) is not attached to the %s grid" % (st, name), case)
+            except Exception as e:                              # noqa
+                real[name, st] = ('err', type(e).__name__)
+        kinds = {st: real[name, st][0] if real[name, st][0] == 'ok' else real[name, st][1] for st in SUPER_STATS}
+        if len(set(k == 'ok' for k in kinds.values())) != 1:
+            ctx.violation('%s:super-stat:definedness' % label, 'the statistic changes whether evaluate_supersampled is defined on a %s grid: %r' % (name, kinds), case)
+            continue
+        if real[name, 'mean'][0] != 'ok':
+            # which exception: not part of the property; the model says which (supersampled_statistic_error_kinds)
+            ctx.count('super-stat:' + '/'.join(kinds[st] for st in SUPER_STATS))
+            continue
+        mean, sm, mn, mx = (real[name, st][1] for st in SUPER_STATS)
+        nd = int(ov[0] * ov[1])
+        tolv = 1e-9 * max(1.0, nd)
+        if (mn > mean + tolv).any() or (mean > mx + tolv).any():
+            i = int(np.flatnonzero((mn > mean + tolv) | (mean > mx + tolv))[0])
+            ctx.violation('%s:super-stat:order' % label, 'min <= mean <= max fails on a %s grid at pixel %d: %r %r %r' % (name, i, mn[i], mean[i], mx[i]), case)
+        if np.abs(sm - mean * nd).max() > tolv:
+            ctx.violation('%s:super-stat:sum' % label, "'sum' differs from 'mean' times the %d dithers on a %s grid (max %g)" % (nd, name, np.abs(sm - mean * nd).max()), case)
+        if allowed is not None:
+            for st, v in (('min', mn), ('max', mx)):
+                badv = [float(t) for t in v if min(abs(t - a) for a in allowed) > 1e-12]
+                if badv:
+                    ctx.violation('%s:super-stat:%s-value' % (label, st), "'%s' returns %r, not a value of the aperture (%r), on a %s grid" % (st, badv[0], allowed, name), case)
+        if binary:
+            for st, v in (('mean', mean), ('min', mn), ('max', mx)):
+                if v.min() < -1e-12 or v.max() > 1 + 1e-12:
+                    ctx.violation('%s:super-range:%s' % (label, st), "supersampled '%s' leaves [0,1] on a %s grid: %r %r" % (st, name, v.min(), v.max()), case)
+        ctx.count('super-stat:ok')
+        ctx.count('super-stat-over:%dx%d' % (ov[0], ov[1]))
+    for st in SUPER_STATS:
+        a, b = real.get(('regular', st)), real.get(('separated', st))
+        if a is not None and b is not None and a[0] == b[0] == 'ok' and np.abs(a[1] - b[1]).max() > 1e-9:
+            ctx.violation('%s:super-differs:%s' % (label, st), "supersampled '%s' differs between the regular and the separated grid" % st, case)
+    ctx.case(None, ('super-stat', label, gspec[0], tuple(int(t) for t in ov), len(xs)) if any(v[0] == 'ok' and 0 < np.count_nonzero(v[1]) < len(v[1]) for v in real.values()) else None)
+    if not want_model or sep is None or ov.min() < 0 or not real:
+        return [], lambda out: None
+    tol = rat(REL_TOL * scale_of(xs, ys, size))
+    lines = ['C12 superstat %s %d %d %s %s %s %s' % (st, ov[0], ov[1], tol, rat_list(sep[0]), rat_list(sep[1]), ' '.join(toks)) for st in SUPER_STATS]
+    names = {'IndexError': 'err index', 'ZeroDivisionError': 'err zerodiv', 'AttributeError': 'err attribute'}
+
+    def check(out):
+        for st, resp in zip(SUPER_STATS, out):
+            parts = resp.split(' ')
+            for name in ('regular', 'separated'):
+                r = real.get((name, st))
+                if r is None:
+                    continue
+                ctx.traces_validated += 1
+                key = 'super-stat:%s:model:%s' % (st, name)
+                if r[0] == 'err':
+                    if names.get(r[1]) != resp:
+                        ctx.disagree('C12 superstat', {'case': case, 'statistic': st, 'impl': r[1], 'model': resp[:60]}, key=key)
+                    continue
+                if parts[0] != 'ok':
+                    ctx.disagree('C12 superstat', {'case': case, 'statistic': st, 'impl': 'ok', 'model': resp[:60]}, key=key)
+                    continue
+                mv, near = _rats(parts[1]), _bits(parts[2])
+                if len(mv) != len(r[1]):
+                    ctx.disagree('C12 superstat', {'case': case, 'statistic': st, 'detail': 'length', 'model': len(mv), 'impl': len(r[1])}, key=key)
+                    continue
+                for i in range(len(mv)):
+                    if near[i]:
+                        ctx.boundary_skipped += 1
+                        ctx.count('super-stat-boundary-skipped')
+                        continue
+                    ctx.count('super-stat-points-compared:' + st)
+                    if abs(mv[i] - r[1][i]) > 1e-9:
+                        ctx.disagree('C12 superstat', {'case': case, 'statistic': st, 'rep': name, 'index': i, 'model': mv[i], 'impl': float(r[1][i])}, key=key)
+                        break
+    return lines, check
+
+
+def run_super_stats(ctx):
+    cases = list(SUPER_STAT_CORPUS)
+    for _ in range(ctx.scale(16, 100)):
+        fam = str(ctx.rng.choice(SUPER_STAT_FAMILIES))
+        gspec = gen_grid_family(ctx.rng, fam, nmax=6)
+        sspec = gen_shape(ctx.rng)
+        r = ctx.rng.random()
+        over = int(ctx.rng.integers(1, 4)) if r < 0.4 else [int(ctx.rng.integers(1, 4)), int(ctx.rng.integers(1, 4))] if r < 0.9 else [int(ctx.rng.integers(0, 2)), int(ctx.rng.integers(0, 3))]
+        cases.append((gspec, sspec, over))
+    lines, checks = [], []
+    for gspec, sspec, over in cases:
+        l, chk = super_stat_case(ctx, gspec, sspec, over)
+        checks.append((len(lines), len(l), chk))
+        lines += l
+    out = ctx.model(lines)
+    for base, cnt, chk in checks:
+        chk(out[base:base + cnt])
+
+
+# ---------------------------------------------------------------------------------------------
+# evaluate_supersampled with a LIST of generators -> ModeBasis (model: supersampledList)
+
+def super_list_case(ctx, gspec, specs, over, st, sparse, want_model=True):
+    """evaluate_supersampled([gen, ...], grid, over, statistic=st, make_sparse=sparse) on the regular / separated
+    representation.  Oracle on the real code alone: the ModeBasis is attached to the grid, has one mode per generator, in
+    order, each mode attached to the grid and exactly the field the generator gives on its own; `is_sparse` as asked.
+    -> (request lines, check(out))"""
+    import hcipy
+    reps, xs, ys, sep = make_reps(gspec)
+    built = [build(sp) for sp in specs]
+    gens = [b[0] for b in built]
+    case = {'kind': 'super-list', 'grid': gspec, 'shapes': specs, 'over': over, 'stat': st, 'sparse': sparse}
+    ov = (np.round(over) * np.ones(2)).astype(int)
+    real = {}
+    for name in ('regular', 'separated'):
+        g = reps.get(name)
+        if g is None or sep is None:
+            continue
+        try:
+            with warnings.catch_warnings():
+                warnings.simplefilter('ignore')
+                mb = hcipy.evaluate_supersampled(list(gens) if len(specs) % 2 else tuple(gens), g, over, statistic=st, make_sparse=sparse)
+        except Exception as e:                                  # noqa
+            real[name] = ('err', type(e).__name__)
+            ctx.count('super-list:' + type(e).__name__)
+            # a list must fail exactly when its first generator does (an empty list: ValueError from ModeBasis)
+            if specs:
+                try:
+                    with warnings.catch_warnings():
+                        warnings.simplefilter('ignore')
+                        hcipy.evaluate_supersampled(gens[0], g, over, statistic=st)
+                    ctx.violation('super-list:raises', 'evaluate_supersampled raises %s for a list of generators but not for its first generator on a %s grid' % (type(e).__name__, name), case)
+                except Exception as e2:                         # noqa
+                    if type(e2) is not type(e):
+                        ctx.violation('super-list:raises', 'a list of generators raises %s, its first generator alone %s' % (type(e).__name__, type(e2).__name__), case)
+            continue
+        modes = [np.array(mb[i], float).ravel() for i in range(len(mb))]
+        real[name] = ('ok', modes)
+        ctx.count('super-list:ok')
+        ctx.count('super-list-modes', len(modes))
+        if mb.grid is not g or any(getattr(mb[i], 'grid', None) is not g for i in range(len(mb))):
+            ctx.violation('super-list:not-attached', 'the ModeBasis of evaluate_supersampled([...]) (or one of its modes) is not attached to the %s grid' % name, case)
+        if len(modes) != len(specs):
+            ctx.violation('super-list:length', '%d generators give %d modes' % (len(specs), len(modes)), case)
+            continue
+        if bool(mb.is_sparse) != bool(sparse):
+            ctx.violation('super-list:sparse', 'make_sparse=%r gives is_sparse=%r' % (sparse, mb.is_sparse), case)
+        for i, gen in enumerate(gens):
+            with warnings.catch_warnings():
+                warnings.simplefilter('ignore')
+                single = np.array(hcipy.evaluate_supersampled(gen, g, over, statistic=st), float).ravel()
+            if single.shape != modes[i].shape or np.abs(single - modes[i]).max() > 0:
+                ctx.violation('super-list:mode-differs', 'mode %d of the list form differs from the generator evaluated on its own (%s, %s grid)' % (i, st, name), case)
+                break
+    ctx.case(None, ('super-list', len(specs), st, sparse, gspec[0], tuple(int(t) for t in ov)) if any(v[0] == 'ok' and any(0 < np.count_nonzero(m) < len(m) for m in v[1]) for v in real.values()) else None)
+    if not want_model or sep is None or ov.min() < 0 or not real:
+        return [], lambda out: None
+    tol = rat(REL_TOL * scale_of(xs, ys, max([b[2] for b in built] + [1.0])))
+    line = 'C12 superlist %s %d %d %s %s %s %d %s' % (st, ov[0], ov[1], tol, rat_list(sep[0]), rat_list(sep[1]), len(specs), ' '.join(' '.join(b[1]) for b in built))
+    names = {'IndexError': 'err index', 'ZeroDivisionError': 'err zerodiv', 'AttributeError': 'err attribute', 'ValueError': 'err value'}
+
+    def check(out):
+        resp = out[0]
+        parts = resp.split(' ')
+        for name, r in real.items():
+            ctx.traces_validated += 1
+            key = 'super-list:model:%s' % name
+            if r[0] == 'err':
+                if names.get(r[1]) != resp:
+                    ctx.disagree('C12 superlist', {'case': case, 'impl': r[1], 'model': resp[:60]}, key=key)
+                continue
+            if parts[0] != 'ok' or len(parts) != 1 + 2 * len(r[1]):
+                ctx.disagree('C12 superlist', {'case': case, 'impl': 'ok, %d modes' % len(r[1]), 'model': resp[:60]}, key=key)
+                continue
+            for i, rv in enumerate(r[1]):
+                mv, near = _rats(parts[1 + 2 * i]), _bits(parts[2 + 2 * i])
+                if len(mv) != len(rv):
+                    ctx.disagree('C12 superlist', {'case': case, 'mode': i, 'detail': 'length', 'model': len(mv), 'impl': len(rv)}, key=key)
+                    break
+                bad = [j for j in range(len(mv)) if not near[j] and abs(mv[j] - rv[j]) > 1e-9]
+                ctx.count('super-list-points-compared', len(mv) - sum(near))
+                if bad:
+                    ctx.disagree('C12 superlist', {'case': case, 'mode': i, 'rep': name, 'index': bad[0], 'model': mv[bad[0]], 'impl': float(rv[bad[0]])}, key=key)
+                    break
+    return [line], check
+
+
+SUPER_LIST_CORPUS = [
+    (['regular', [5, 4], [0.5, 0.75], [-1.0, -1.125]], [['circle', 1.5, [0.25, 0.0]], ['rect', [1.0, 0.5], None], ['regpoly', 6, 1.75, 0.25, None]], [2, 3], 'mean', True),
+    (['sep', [1.75, 1.0, 0.5, 0.0, -0.5, -1.25], [-1.5, -0.375, 0.0, 0.375, 1.25]], [['circle', 4.0, None], ['circle', 0.125, [5.0, 5.0]]], 2, 'max', True),
+    (['regular', [4, 4], [0.5, 0.5], [-0.75, -0.75]], [], 2, 'mean', True),
+    (['regular', [4, 3], [0.5, 0.5], [-0.75, -0.5]], [['rect', [1.0, 0.5], None], ['circle', 1.0, None]], [0, 2], 'sum', False),
+    (['sep', [0.5], [0.0, 1.0]], [['circle', 1.5, None]], 2, 'min', False),
+]
+
+
+def run_super_lists(ctx):
+    cases = list(SUPER_LIST_CORPUS)
+    for _ in range(ctx.scale(10, 50)):
+        fam = str(ctx.rng.choice(SUPER_STAT_FAMILIES))
+        gspec = gen_grid_family(ctx.rng, fam, nmax=6)
+        specs = [gen_shape(ctx.rng) for _ in range(int(ctx.rng.integers(1, 5)))]
+        over = int(ctx.rng.integers(1, 3)) if ctx.rng.random() < 0.5 else [int(ctx.rng.integers(1, 3)), int(ctx.rng.integers(1, 4))]
+        if ctx.rng.random() < 0.08:
+            over = [0, 1]
+        cases.append((gspec, specs, over, str(ctx.rng.choice(SUPER_STATS)), bool(ctx.rng.random() < 0.6)))
+    lines, checks = [], []
+    for gspec, specs, over, st, sparse in cases:
+        l, chk = super_list_case(ctx, gspec, specs, over, st, sparse)
+        checks.append((len(lines), len(l), chk))
+        lines += l
+    out = ctx.model(lines)
+    for base, cnt, chk in checks:
+        if cnt:
+            chk(out[base:base + cnt])
+
+
+# ---------------------------------------------------------------------------------------------
+# negative diameters: outside the domain of the property; the model predicts what the code does (documented, not reported)
+
+def run_negative_diameter(ctx):
+    """`make_circular_aperture(d)` with d < 0 and no centre: the Cartesian paths square the radius (a disk of radius |d|/2),
+    the polar shortcut `r <= d/2` is empty.  theorem polar_circle_negative_diameter_counterexample says the model does the
+    same; here both are run and compared, and the representation dependence is recorded (not a VIOLATION: a negative
+    diameter is not a size)."""
+    import hcipy
+    seen = 0
+    for gspec, d in [(['regular', [8, 8], [0.5, 0.5], [-1.75, -1.75]], -1.0), (CORNER_GRIDS[1], -1.5), (CORNER_GRIDS[0], -2.25),
+                     (['polarsep', [0.0, 0.5, 1.0], [0.0, 1.0, 2.0]], -0.75)]:
+        reps, xs, ys, sep = make_reps(gspec)
+        gen = hcipy.make_circular_aperture(d)
+        toks = ['disk', rat(d / 2)]
+        tol = rat(REL_TOL * scale_of(xs, ys, abs(d)))
+        cart = evaluate(gen, reps['unstructured'])[0]
+        pol = evaluate(gen, reps['polar'])[0]
+        out = ctx.model(['C12 eval pts %s %s %s %s' % (tol, rat_list(xs), rat_list(ys), ' '.join(toks)), polar_request('eval', tol, reps['polar'], ' '.join(toks))])
+        for rv, resp, nm in ((cart, out[0], 'unstructured'), (pol, out[1], 'polar')):
+            parts = resp.split(' ')
+            mv, near = _rats(parts[1]), _bits(parts[2])
+            ctx.traces_validated += 1
+            bad = [i for i in range(len(mv)) if not near[i] and abs(mv[i] - rv[i]) > 1e-9]
+            if rv is None or bad:
+                ctx.disagree('C12 negative-diameter', {'grid': gspec, 'diameter': d, 'rep': nm, 'index': bad[:3]}, key='negative-diameter:model:' + nm)
+        if out[1].split(' ')[4] == '0':
+            ctx.disagree('C12 negative-diameter', {'grid': gspec, 'diameter': d, 'detail': 'the model does not show the representation dependence'})
+        if np.count_nonzero(cart != pol):
+            seen += 1
+            ctx.count('negative-diameter:representation-dependent')
+        ctx.extra.setdefault('negative_diameter', []).append({'diameter': d, 'grid': gspec[0], 'cartesian_pixels': int(cart.sum()), 'polar_pixels': int(pol.sum())})
+    return seen
 
 
 # D120: VLT segment generators on a separated grid with a single row
@@ -1130,7 +1931,7 @@ def run(ctx):
                         'cos/sin/apothem constants are recomputed by the harness with the NumPy expressions of the maker closures',
                         'as_(polar)/as_(cartesian) round trips move a point by far less than 1e-7*scale']
     big = ctx.tier == 'thorough'
-    n = ctx.scale(300, 9000)
+    n = ctx.scale(300, 5000)          # round 4: every case also runs the polar path and the regsub probes; 9000 -> 5000 keeps thorough < 10 min
     cases = [(g, s, None, None) for g, s in DIRECTED]
     corners = corner_cases()
     for k, (mk, cls, spec) in enumerate(corners):
@@ -1176,7 +1977,36 @@ def run(ctx):
                 l, chk = run_keck(ctx, kw, int(ctx.rng.integers(0, 2 ** 31)), fam)
                 checks.append((len(lines), len(l), chk))
                 lines += l
+    # the VLT pupil and its quadrants inside the model, on every grid family
+    for _ in range(ctx.scale(1, 3)):
+        for kw in VLT_CONFIGS:
+            for fam in FAMILIES:
+                if ctx.quick() and ctx.rng.random() < 0.8:
+                    continue
+                l, chk = run_vlt(ctx, kw, int(ctx.rng.integers(0, 2 ** 31)), fam, nseg=ctx.scale(1, 2))
+                checks.append((len(lines), len(l), chk))
+                lines += l
+    # the simple telescope pupils as compositions of the modelled makers
+    for name, kw in RECIPE_PUPILS:
+        for i in range(len(recipe_pupil(name, kw)[2])):
+            for fine in (0, 1):
+                fam = 'regular' if (i + fine) % 2 == 0 else str(ctx.rng.choice(['sep-asc', 'sep-desc', 'sep-permuted', 'regular-reversed', 'regular-scaled-1']))
+                l, chk = run_recipe(ctx, name, kw, int(ctx.rng.integers(0, 2 ** 31)), fam, feat=[i, fine])
+                checks.append((len(lines), len(l), chk))
+                lines += l
+    for _ in range(ctx.scale(1, 2)):
+        for name, kw in RECIPE_PUPILS:
+            for fam in FAMILIES:
+                if ctx.quick() and ctx.rng.random() < 0.8:
+                    continue
+                l, chk = run_recipe(ctx, name, kw, int(ctx.rng.integers(0, 2 ** 31)), fam)
+                checks.append((len(lines), len(l), chk))
+                lines += l
     check_hexqr(ctx)
+    run_super_errors(ctx)
+    run_super_stats(ctx)
+    run_super_lists(ctx)
+    run_negative_diameter(ctx)
     out = ctx.model(lines)
     for base, cnt, chk in checks:
         chk(out[base:base + cnt])
@@ -1257,6 +2087,14 @@ def run(ctx):
 def replay(ctx, case):
     if case.get('kind') == 'keck':
         run_keck(ctx, case['kw'], case['gseed'], case['fam'])
+    elif case.get('kind') == 'vlt':
+        run_vlt(ctx, case['kw'], case['gseed'], case['fam'], case.get('nseg', 2))
+    elif case.get('kind') == 'recipe':
+        run_recipe(ctx, case['name'], case['kw'], case['gseed'], case['fam'], case.get('feat'))
+    elif case.get('kind') == 'super-list':
+        super_list_case(ctx, case['grid'], case['shapes'], case['over'], case['stat'], case['sparse'], want_model=False)
+    elif case.get('kind') == 'super-stat':
+        super_stat_case(ctx, case['grid'], case['shape'], case['over'], want_model=False)
     elif case.get('kind') == 'pupil':
         run_pupil(ctx, case['name'], case['kw'], case['gseed'], case.get('over'), case.get('fam'), case.get('gspec_fixed'))
     else:
